@@ -477,12 +477,17 @@ PROPS = {
         "text": "translate_threads.py regenerates, on every run, the exception-flow skeleton of every function in the package that calls "
                 "numba.set_num_threads; Lean proves once that a skeleton accepted by `safe` restores the count on every exit (normal, return, "
                 "exception at any may-raise point) and `decide`s `safe` on today's skeletons; the real constructor/prepare are run through every "
-                "listed failure mode and n_jobs value and the thread count is compared before/after",
+                "listed failure mode and n_jobs value and the thread count is compared before/after; a statement that calls another thread-limiting method "
+                "of the same object (`self._init_search_graph()` ...) becomes a `callT` node: the callee restores the count it found but overwrites the "
+                "shared attribute self._original_num_threads, so such a call inside the limited region is rejected; scenarios also cover compressed=True, "
+                "sparse + compressed + prepare, one random configuration per n_jobs, the transformer, a changed ambient count between construction and "
+                "prepare / query, and a lowered entry count",
         "note": TB + "the translator (ast walk, conservative: unknown constructs are never safe); numba.set_num_threads(original) itself does not raise; "
                      "the thread count is only changed through numba.set_num_threads",
         "explanation": "general theorem safe_sound + decide on Gen/ThreadFlow.lean; API fault sequences with recorded set_num_threads calls",
         "assumptions": ["the only way the package changes the thread count is numba.set_num_threads (grep'd by the translator over all modules)",
-                        "restoring with the saved entry value does not raise"],
+                        "restoring with the saved entry value does not raise",
+                        "a callee reached through `callT` is itself in the generated list and therefore obliged to be safe (same theorem, same run)"],
     },
 }
 
